@@ -197,6 +197,46 @@ def run(ctx):
             ctx.seen(("efg", use_q, bool(iso_dict), iso_list is not None))
         except Exception as e:
             ctx.fail_input("efg", dict(elems=elems, **{k: str(v) for k, v in opts.items()}), "EFG properties raised %s: %s" % (type(e).__name__, str(e)[:160]), None)
+        # ---- partial dictionaries: elements not named keep the defaults (reference 0, gradient -1)
+        if len(syms) > 1 and t % 2 == 0:
+            keep = set(rng.sample(syms, rng.randint(1, len(syms) - 1)))
+            pref = {e: refd[e] for e in syms if e in keep}
+            pgrad = {e: gradd[e] for e in syms if e not in keep} or {syms[0]: gradd[syms[0]]}
+            try:
+                sh = MSShift.get(atoms, ref=pref, grad=pgrad)
+                ms = atoms.get_array("ms")
+                for i, e in enumerate(elems):
+                    r_, g_ = pref.get(e, 0.0), pgrad.get(e, -1.0)
+                    f_ = r_ + g_ * float(np.trace(ms[i]) / 3) / (1 + r_ * 1e-6)
+                    ctx.evaluations += 1
+                    if not close(sh[i], f_):
+                        ctx.fail_input("ms", dict(elems=elems, atom=i, prop="shift", ref=pref, grad=pgrad),
+                                       "partial dictionaries: shift %r, documented defaults (ref 0, grad -1 for unnamed elements) give %r" % (float(sh[i]), f_), None)
+                ctx.seen(("ms-partial", len(keep)))
+            except Exception as e:
+                ctx.fail_input("ms", dict(elems=elems, ref=pref, grad=pgrad), "MSShift with partial dictionaries raised %s: %s" % (type(e).__name__, e), None)
+        # ---- cache, property by property: fill the caches, replace the tensors, then THIS property with force_recalc=True must be computed from the new data
+        if t % 4 == 1:
+            fresh = mk_struct(rng, elems)
+            props = [("MSSpan", lambda a, **k: MSSpan.get(a, **k)), ("MSSkew", lambda a, **k: MSSkew.get(a, **k)), ("MSAnisotropy", lambda a, **k: MSAnisotropy.get(a, **k)),
+                     ("MSReducedAnisotropy", lambda a, **k: MSReducedAnisotropy.get(a, **k)), ("MSAsymmetry", lambda a, **k: MSAsymmetry.get(a, **k)),
+                     ("EFGVzz", lambda a, **k: EFGVzz.get(a, **k)), ("EFGAsymmetry", lambda a, **k: EFGAsymmetry.get(a, **k)), ("EFGAnisotropy", lambda a, **k: EFGAnisotropy.get(a, **k)),
+                     ("EFGSpan", lambda a, **k: EFGSpan.get(a, **k)), ("EFGSkew", lambda a, **k: EFGSkew.get(a, **k)),
+                     ("EFGQuadrupolarConstant", lambda a, **k: EFGQuadrupolarConstant.get(a, **opts, **k)), ("EFGQuadrupolarProduct", lambda a, **k: EFGQuadrupolarProduct.get(a, **opts, **k))]
+            for pname, pf in props:
+                try:
+                    want_ = np.array(pf(fresh.copy()), float)
+                    b_ = mk_struct(rng, elems)                   # other tensors
+                    MSSpan.get(b_), EFGVzz.get(b_), EFGAsymmetry.get(b_)      # fill the caches with the old data
+                    b_.set_array("ms", None), b_.set_array("efg", None)
+                    b_.set_array("ms", fresh.get_array("ms").copy()), b_.set_array("efg", fresh.get_array("efg").copy())
+                    got_ = np.array(pf(b_, force_recalc=True), float)
+                    ctx.evaluations += 1
+                    if not all(close(x_, y_, 1e-8) for x_, y_ in zip(got_, want_)):
+                        ctx.fail_input("cache", dict(elems=elems, prop=pname), "%s(force_recalc=True) after the tensors were replaced returns %s, a fresh structure gives %s (stale cache)" % (pname, got_[:3], want_[:3]), None)
+                except Exception as e:
+                    ctx.fail_input("cache", dict(elems=elems, prop=pname), "%s(force_recalc=True) raised %s: %s" % (pname, type(e).__name__, e), None)
+            ctx.seen(("cache-per-property", n))
         # ---- cache: overwrite the arrays, then force_recalc must reflect the new data
         if t % 3 == 0:
             try:
